@@ -29,6 +29,11 @@ func (ex *Exec) execInstr(fr *Frame, st *State, ins ssa.Instruction) {
 					// the most recently declared variable of a name shadows
 					// earlier ones (execution follows source order)
 					fr.named[x.Comment] = c
+					c.AllocPC = st.PC
+					if fr.namedAll == nil {
+						fr.namedAll = map[string][]*Cell{}
+					}
+					fr.namedAll[x.Comment] = append(fr.namedAll[x.Comment], c)
 				}
 			}
 			if _, isDS := el.(*types.Named); isDS && el.String() == "$ssa.deferStack" {
